@@ -159,17 +159,18 @@ void ::sqf::parser::sqf::parser::to_assembly(std::string_view contents, const ::
     case bison::astkind::CODE:
     {
         std::vector<::sqf::runtime::instruction::sptr> tmp_set;
-        bison::astnode previous_node;
+        const bison::astnode* previous_node_ptr = nullptr;
         for (size_t i = 0; i < node.children.size(); i++)
         {
             if (i != 0)
             {
                 auto inst = std::make_shared<::sqf::opcodes::end_statement>();
+                auto& previous_node = *previous_node_ptr;
                 inst->diag_info({ previous_node.token.line, previous_node.token.column + previous_node.token.contents.length(), previous_node.token.offset, { *previous_node.token.path, {} }, create_code_segment(contents, previous_node.token.offset, previous_node.token.contents.length()) });
                 tmp_set.push_back(inst);
             }
-            previous_node = node.children[i];
-            to_assembly(contents, previous_node, tmp_set);
+            previous_node_ptr = &node.children[i];
+            to_assembly(contents, *previous_node_ptr, tmp_set);
         }
         auto inst_set = ::sqf::runtime::instruction_set(tmp_set);
         auto inst = std::make_shared<::sqf::opcodes::push>(::sqf::runtime::value(std::make_shared<::sqf::types::d_code>(inst_set)));
@@ -222,17 +223,18 @@ void ::sqf::parser::sqf::parser::to_assembly(std::string_view contents, const ::
     break;
     default:
     {
-        bison::astnode previous_node;
+        const bison::astnode* previous_node_ptr = nullptr;
         for (size_t i = 0; i < node.children.size(); i++)
         {
             if (i != 0)
             {
                 auto inst = std::make_shared<::sqf::opcodes::end_statement>();
+                auto& previous_node = *previous_node_ptr;
                 inst->diag_info({ previous_node.token.line, previous_node.token.column + previous_node.token.contents.length(), previous_node.token.offset, { *previous_node.token.path, {} }, create_code_segment(contents, previous_node.token.offset, previous_node.token.contents.length()) });
                 set.push_back(inst);
             }
-            previous_node = node.children[i];
-            to_assembly(contents, previous_node, set);
+            previous_node_ptr = &node.children[i];
+            to_assembly(contents, *previous_node_ptr, set);
         }
     }
     }
@@ -247,51 +249,12 @@ bool sqf::parser::sqf::parser::get_tree(::sqf::runtime::runtime& runtime, ::sqf:
 
 namespace
 {
-    // Code generation and the destruction of the syntax tree recurse once per nesting level of
-    // brackets: beyond this depth the input is refused instead of exhausting the stack.
-    const size_t max_nesting_depth = 10000;
-    bool nesting_too_deep(std::string& contents, const std::string& path, size_t& out_line, size_t& out_column)
-    {
-        using tokenizer = ::sqf::parser::sqf::tokenizer;
-        tokenizer t(contents.begin(), contents.end(), path);
-        size_t depth = 0;
-        while (true)
-        {
-            auto token = t.next();
-            switch (token.type)
-            {
-            case tokenizer::etoken::eof:
-            case tokenizer::etoken::invalid:
-                return false;
-            case tokenizer::etoken::s_curlyo:
-            case tokenizer::etoken::s_roundo:
-            case tokenizer::etoken::s_edgeo:
-                if (++depth > max_nesting_depth)
-                {
-                    out_line = token.line;
-                    out_column = token.column;
-                    return true;
-                }
-                break;
-            case tokenizer::etoken::s_curlyc:
-            case tokenizer::etoken::s_roundc:
-            case tokenizer::etoken::s_edgec:
-                if (depth > 0) { depth--; }
-                break;
-            default:
-                break;
-            }
-        }
-    }
+    // Code generation recurses once per level of the syntax tree (brackets as well as chains of
+    // operators): trees higher than this are refused instead of exhausting the stack.
+    const size_t max_tree_depth = 2000;
 }
 std::optional<sqf::runtime::instruction_set> sqf::parser::sqf::parser::parse(::sqf::runtime::runtime& runtime, std::string contents, ::sqf::runtime::fileio::pathinfo file)
 {
-    size_t deep_line = 0, deep_column = 0;
-    if (nesting_too_deep(contents, file.physical, deep_line, deep_column))
-    {
-        __log(logmessage::sqf::ParseError({ file.physical, deep_line, deep_column }, "Brackets are nested too deeply."));
-        return {};
-    }
     tokenizer t(contents.begin(), contents.end(), file.physical);
     ::sqf::parser::sqf::bison::astnode res;
     ::sqf::parser::sqf::bison::parser p(t, res, *this, runtime);
@@ -301,6 +264,11 @@ std::optional<sqf::runtime::instruction_set> sqf::parser::sqf::parser::parse(::s
     {
         return {};
     }
+    if (res.depth > max_tree_depth)
+    {
+        __log(logmessage::sqf::ParseError({ file.physical, 0, 0 }, "Expression is nested too deeply."));
+        return {};
+    }
     std::vector<::sqf::runtime::instruction::sptr> vec;
     to_assembly(contents, res, vec);
     return vec;
@@ -308,15 +276,14 @@ std::optional<sqf::runtime::instruction_set> sqf::parser::sqf::parser::parse(::s
 
 bool ::sqf::parser::sqf::parser::check_syntax(::sqf::runtime::runtime& runtime, std::string contents, ::sqf::runtime::fileio::pathinfo file)
 {
-    size_t deep_line = 0, deep_column = 0;
-    if (nesting_too_deep(contents, file.physical, deep_line, deep_column))
-    {
-        __log(logmessage::sqf::ParseError({ file.physical, deep_line, deep_column }, "Brackets are nested too deeply."));
-        return false;
-    }
     tokenizer t(contents.begin(), contents.end(), file.physical);
     ::sqf::parser::sqf::bison::astnode res;
     ::sqf::parser::sqf::bison::parser p(t, res, *this, runtime);
     bool success = p.parse() == 0;
+    if (success && res.depth > max_tree_depth)
+    {
+        __log(logmessage::sqf::ParseError({ file.physical, 0, 0 }, "Expression is nested too deeply."));
+        return false;
+    }
     return success;
 }
